@@ -129,6 +129,15 @@ func genLight(r *Rand, mode string) *Project {
 			for i := 0; i < r.Range(1, 3); i++ {
 				from := names[r.Intn(len(names))]
 				prm := pathAlphabet[r.Intn(len(pathAlphabet))]
+				if r.Chance(1, 3) && !strings.HasPrefix(prm, `"`) {
+					// byte noise inside the parameter: control characters, DEL, C1 controls, invalid UTF-8,
+					// invisible code points - whatever the parameter says, it is validated as it is written
+					noise := []string{"\x01", "\x07", "\x1b", "\x7f", "\x80", "\xc2\x85", "\xc2\xa0", "\xff", "\xe2\x80\x8b", "\xe2\x80\xae", "%00", "%2f"}
+					for k := 0; k < r.Range(1, 2); k++ {
+						pos := r.Intn(len(prm) + 1)
+						prm = prm[:pos] + noise[r.Intn(len(noise))] + prm[pos:]
+					}
+				}
 				addInc(from, prm)
 			}
 			p.Features = append(p.Features, "hostile-params")
@@ -295,5 +304,67 @@ func genSpecial(r *Rand, kind string) *Project {
 	default:
 		panic("unknown special kind " + kind)
 	}
+	return p
+}
+
+
+// genMacroGraph: a random MACRO/PASTE call graph (2-5 macros, edges at random, cyclic in most
+// cases, cycle length 1-4). Each PASTE edge sits under a randomly chosen container inside the
+// macro body: directly in the macro, under a method, under a response or a Request with an
+// inline schema body, under a URL - a recursion check that only follows some kinds of nesting
+// lets the expansion recurse for ever. One macro is pasted from outside.
+func genMacroGraph(r *Rand) *Project {
+	p := &Project{Kind: "macro-graph", Root: "root.jst"}
+	n := r.Range(2, 5)
+	var sb strings.Builder
+	sb.WriteString("JSIGHT 0.3\n")
+	edges := make([][]int, n)
+	for i := 0; i < n; i++ {
+		for k := 0; k < r.Range(0, 2); k++ {
+			edges[i] = append(edges[i], r.Intn(n))
+		}
+	}
+	if r.Chance(3, 4) {
+		// force a cycle of length L through macros 0..L-1
+		L := r.Range(1, n)
+		for i := 0; i < L; i++ {
+			edges[i] = append(edges[i], (i+1)%L)
+		}
+		p.Features = append(p.Features, fmt.Sprintf("macro-cycle-len-%d", L))
+	}
+	path := 0
+	edge := func(ind string, to int) string {
+		paste := fmt.Sprintf("PASTE @g%d", to)
+		path++
+		switch r.Intn(6) {
+		case 0:
+			return ind + paste + "\n"
+		case 1:
+			return fmt.Sprintf("%sGET /mg%d\n%s  200 any\n%s  %s\n", ind, path, ind, ind, paste)
+		case 2:
+			return fmt.Sprintf("%s2%02d\n%s  {\"x\": %d}\n%s  %s\n", ind, path%100, ind, path, ind, paste)
+		case 3:
+			return fmt.Sprintf("%sPOST /mg%d\n%s  Request\n%s    {\"r\": %d}\n%s    %s\n%s  200 any\n", ind, path, ind, ind, path, ind, paste, ind)
+		case 4:
+			return fmt.Sprintf("%sURL /mu%d\n%s  GET\n%s    201\n%s      [1, 2]\n%s      %s\n", ind, path, ind, ind, ind, ind, paste)
+		default:
+			return fmt.Sprintf("%s4%02d any\n%s%s\n", ind, path%100, ind, paste)
+		}
+	}
+	for i := 0; i < n; i++ {
+		fmt.Fprintf(&sb, "MACRO @g%d\n(\n", i)
+		if len(edges[i]) == 0 || r.Chance(1, 2) {
+			fmt.Fprintf(&sb, "  5%02d any\n", i)
+		}
+		for _, to := range edges[i] {
+			sb.WriteString(edge("  ", to))
+		}
+		sb.WriteString(")\n")
+	}
+	fmt.Fprintf(&sb, "GET /outside\n  200 any\n  PASTE @g%d\n", r.Intn(n))
+	if r.Chance(1, 3) {
+		fmt.Fprintf(&sb, "PASTE @g%d\n", r.Intn(n))
+	}
+	p.Files = []GenFile{{Path: "root.jst", Data: []byte(sb.String())}}
 	return p
 }
